@@ -23,6 +23,12 @@ CLAIMED["C12"] = {
     "note": "trusts: stdlib zoneinfo/tzdata as reference; week registers written by a single nemesis actor; one open known finding class (boundary wall time skipped/repeated resolved by the carried fold) is suppressed by signature only",
 }
 
+CLAIMED["C16"] = {
+    "text": "Seeded search over interleavings of next/previous/first_of/last_of/nth_of (Date and DateTime, zones with skipped midnights) with a nemesis that calls calendar.setfirstweekday(), rewrites the week configuration, clears the zone cache and restarts; every result must equal the cold re-execution in the default environment (the statement has no dependence on the calendar module's display setting) and the weekday arithmetic of datetime.date.",
+    "ref": "DESIGN.md §5 C16",
+    "note": "trusts: datetime.date arithmetic and stdlib zoneinfo as reference; time-of-day is asserted only where the target wall time is unique or a skipped midnight; one open known finding class (skipped/repeated midnight resolved by the carried fold) is suppressed by signature only",
+}
+
 NOT_APPLICABLE = {
     "C03": "pure function of its arguments and immutable zone data: no clock, shared mutable slot, configuration or I/O in add/subtract with fixed units; nothing for a scheduler or fault injector to vary",
     "C04": "pure function of its arguments (calendar arithmetic + construction rules); Duration fields it reads are written once in __new__; no schedule, clock or fault dependence",
@@ -42,10 +48,10 @@ ALL = ["C%02d" % i for i in range(1, 21)]
 
 # designed as simulation targets (DESIGN.md §5) but whose check is not registered yet
 PENDING = {p: "simulation target per DESIGN.md §5, check still under construction in this commit (not claimed yet)"
-           for p in ("C01", "C02", "C06", "C08", "C16", "C18")}
+           for p in ("C01", "C02", "C06", "C08", "C18")}
 
 FIX_COMMITS = ["0cac821 (C09 lazy-slot race)", "c2f908d (previous() never terminates across a skipped calendar day; C12/C16)",
-               "2c83944 (next() drifts to 01:00 after a skipped midnight; C16)", "6249586 (C12 week configuration read twice)"]
+               "2c83944 (next() drifts to 01:00 after a skipped midnight; C16)", "6249586 (C12 week configuration read twice)", "1273e62 (C16 first_of/last_of depend on calendar.setfirstweekday())"]
 
 
 def main():
